@@ -9,6 +9,7 @@
   (GV/Generated/Balance.lean).
 -/
 import GV.Generated.Balance
+import GV.Race.Order
 namespace GV.Props.Locks
 open GV.Race.Balance GV.Generated.Balance
 
@@ -35,5 +36,37 @@ theorem interpreter_sound {s : LS} {st : St} {e : Exit} {st' : St} (hr : Run s s
 /-- Non-vacuity: the data context's `SetValue` and the pool's `getGengine` are among the units. -/
 example : ("context/data_context.go:DataContext.SetValue" ∈ units.map (·.1)) ∧
     ("engine/gengine_pool.go:GenginePool.getGengine" ∈ units.map (·.1)) := by decide
+
+/-! ### lock order (C17: no deadlock among gengine's own mutexes) -/
+
+open GV.Race.Order in
+/-- call-graph summaries and name tables regenerated with the skeletons -/
+def sums : List Sum := summaries.map (fun s => ⟨s.name, s.typ, s.method, s.recv, s.takes, s.callees⟩)
+
+open GV.Race.Order in
+def names : Names := ⟨calleeComps, lockField, unitBase⟩
+
+/-- The acquisition order the current source exhibits (a mutex taken while another may be held,
+    within a function or through the callees it names), computed by the may-held analysis over the
+    regenerated skeletons and call-graph summaries and decided by the kernel: the pool's update lock
+    is taken before a rule builder's build lock and the data context's table lock; `getGengine`'s
+    entry lock before the two free-list locks; nothing else nests. -/
+theorem acquisition_order :
+    GV.Race.Order.edges names sums units =
+      [("gp.updateLock", "builder.buildLock"), ("gp.updateLock", "dc.lockBase"),
+       ("gp.getEngineLock", "gp.runningLock"), ("gp.getEngineLock", "gp.additionLock")] := by decide
+
+/-- every such acquisition goes up in the ranking updateLock, getEngineLock < buildLock, runningLock,
+    additionLock < lockBase < lockVars < the engine's result lock < a fan-out's error lock -/
+theorem acquisition_order_ranked : GV.Race.Order.ordered names sums units = true := by
+  unfold GV.Race.Order.ordered; rw [acquisition_order]; decide
+
+/-- **Ranked acquisition excludes deadlock**: in any snapshot of any number of threads in which each
+    blocked thread waits for one mutex ranking above everything it holds, no chain of threads, each
+    waiting for a mutex the next one holds, closes into a cycle. -/
+theorem no_deadlock_by_lock_order {T L : Type} (s : GV.Race.Order.Snap T L) (rank : L → Nat)
+    (hr : GV.Race.Order.Ranked s rank) (huniq : ∀ x l l', s.waits x l → s.waits x l' → l = l')
+    (a : T) (ts : List T) (hl : GV.Race.Order.Linked s (a :: ts ++ [a])) (la : L) (hwa : s.waits a la) : False :=
+  GV.Race.Order.no_wait_cycle s rank hr huniq a ts hl la hwa
 
 end GV.Props.Locks
